@@ -15,8 +15,8 @@ from lib import tlc, build, tracev
 from lib.ctx import MachineryError
 from harness.mt import mtlib
 
-QUICK_MC = ["q_plain", "q_flush", "q_fail", "q_timeout", "nw1"]
-ALL_MC = ["plain", "bs1", "flush", "q_barrier", "fail", "spur", "timeout", "nw1"]
+QUICK_MC = ["q_plain", "q_flush", "q_fail", "q_timeout", "nw1", "live"]
+ALL_MC = ["plain", "bs1", "flush", "q_barrier", "fail", "spur", "timeout", "nw1", "live"]
 
 def model_check(ctx):
     names = QUICK_MC if ctx.quick else ALL_MC
